@@ -7,7 +7,7 @@ FN = ["dominated_operations", "non_immediate_machines", "non_idle_machines", "no
 
 class C07(SessionCheck):
     pid = "C07"
-    inst_kwargs = dict(allow_empty_jobs=False, big=True)
+    inst_kwargs = dict(allow_empty_jobs=False, big=True, huge=True)
     gen_kwargs = dict(p_invalid=0.03, p_query=0.75, p_reset=0.02, p_snapshot=1.0, p_obs=0.0, p_sub=0.6)
     assumptions = ["valid instance: durations >= 0 (zero durations included), every operation has an eligible machine",
                    "filters are applied to lists of ready operations (any sub-list, any order) of the current state"]
